@@ -68,6 +68,10 @@ pub struct Sc {
     /// hook, and an empty area sits at the address their placement loops probe first
     #[serde(default)]
     pub builtin: bool,
+    /// c06: after the step the host revokes PROT_EXEC from the code area and sends the machine back to
+    /// the same address: what ran a moment ago must now be refused at the fetch
+    #[serde(default)]
+    pub refetch_revoked: bool,
 }
 
 pub struct E5Engine;
@@ -449,7 +453,17 @@ fn solve(ins: &mut Instruction, shape: Option<usize>, gpr: &mut [u64], target: u
     let mut rest = t.wrapping_sub(disp as u64);
     if s.index != Register::None {
         let ii = reg_index(s.index).unwrap();
-        let iv = r.below(0x40);
+        // with a base register to absorb the rest the index may be anything: small, negative (a loop index
+        // counting down), or large enough for index * scale to wrap - the address is taken modulo 2^64
+        let iv = if s.base != Register::None && s.base != Register::EBX && s.index.is_gpr64() {
+            match r.below(4) {
+                0 | 1 => r.below(0x40),
+                2 => 0u64.wrapping_sub(r.range(1, 64)),
+                _ => r.next(),
+            }
+        } else {
+            r.below(0x40)
+        };
         gpr[ii] = iv;
         rest = rest.wrapping_sub(iv.wrapping_mul(s.scale as u64));
     }
@@ -654,11 +668,12 @@ fn gen_insn(mode: &str, ci: usize, shape: Option<usize>, fault: &str, r: &mut Rn
         neighbour: fault == "straddle_area_end" && k % 3 == 2,
         prelude_ret: k % 4 == 3,
         builtin: false,
+        refetch_revoked: mode == "c06" && k % 8 == 2,
     })
 }
 
 fn trivial(mode: &str) -> Sc {
-    Sc { mode: mode.into(), code_name: "Nopd".into(), shape: "reg".into(), fault: "none".into(), bytes: "90".into(), gpr: vec![0, 0, 0, 0, 0, 0, STACK + 0x800, 0, 0, 0, 0, 0, 0, 0, 0, 0], xmm_seed: 1, flags: 0, fs: 0, gs: 0, data_seed: 1, prot_data: 3, prot_stack: 3, prot_code: 5, extra_steps: 0, flips: vec![], flip_at: 0, poke: vec![], no_pad: false, shrunk: false, neighbour: false, prelude_ret: false, builtin: false }
+    Sc { mode: mode.into(), code_name: "Nopd".into(), shape: "reg".into(), fault: "none".into(), bytes: "90".into(), gpr: vec![0, 0, 0, 0, 0, 0, STACK + 0x800, 0, 0, 0, 0, 0, 0, 0, 0, 0], xmm_seed: 1, flags: 0, fs: 0, gs: 0, data_seed: 1, prot_data: 3, prot_stack: 3, prot_code: 5, extra_steps: 0, flips: vec![], flip_at: 0, poke: vec![], no_pad: false, shrunk: false, neighbour: false, prelude_ret: false, builtin: false, refetch_revoked: false }
 }
 
 fn gen_c06(seed: u64, idx: u64, thorough: bool) -> Sc {
@@ -1271,6 +1286,28 @@ fn run_insn(sc: &Sc, ctx: &mut Ctx) {
                 if after != before {
                     ctx.dev(prop, format!("{prop}|{}|failed_access_changed_memory|{mn}", if prop == "C09" { "insn" } else { "fault" }), format!("{} [{}]: the step failed ({why}) but memory changed", sc.code_name, sc.shape));
                 }
+            }
+        }
+    }
+    if sc.refetch_revoked && sc.prot_code & 4 != 0 && !matches!(out, StepOut::Panic(_)) {
+        // the same address again, after the right to execute it was taken away
+        ctx.fault("exec_revoked_after_first_execution");
+        let _ = m.ax.mem_prot(CODE, sc.prot_code & 3);
+        let _ = m.ax.reg_write_64(SR::RIP, CODE);
+        if m.ax.verif_finished() {
+            ctx.probe("refetch_skipped_machine_finished");
+        } else {
+            let before2 = observe(&m.ax).areas;
+            let out2 = do_step(&mut m.ax);
+            ctx.guest_steps += 1;
+            match &out2 {
+                StepOut::Err(_) => {
+                    if observe(&m.ax).areas != before2 {
+                        ctx.dev("C06", format!("C06|fetch_revoked|failed_access_changed_memory|{mn}"), "the refused step changed memory".into());
+                    }
+                }
+                StepOut::Ok(_) => ctx.dev("C06", format!("C06|fetch_revoked|want=err|got=ok|{mn}"), format!("{} ({}) ran again at {CODE:#x} after PROT_EXEC had been revoked from the code area", ins, sc.bytes)),
+                StepOut::Panic(p) => ctx.dev("C06", format!("C06|fetch_revoked|panic:{}|{mn}", p.class()), format!("{} at {}", p.msg, p.loc)),
             }
         }
     }
